@@ -130,6 +130,22 @@ def _lemma_worker(task):
         discharge(ob, tier, want_model=False)
         out["obligations"].append({"name": ob.name, "kind": "lemma", "status": ob.status, "time": round(ob.time, 4),
                                    "backend": ob.backend, "text": name, "line": 0, "detail": ob.detail})
+    if any(p == prop for (p, _n, _f) in REG.static_checks):
+        from pyvc.source import Repo
+        repo = Repo(root)
+        for (p, name, fn) in REG.static_checks:
+            if p != prop:
+                continue
+            t0 = time.time()
+            try:
+                ok, detail = fn(repo)
+            except Exception:
+                out["error"] = "crash: static check %s: %s" % (name, traceback.format_exc())
+                break
+            out["obligations"].append({"name": "%s/static/%s" % (prop, name), "kind": "static",
+                                       "status": "proved" if ok else "failed", "time": round(time.time() - t0, 4),
+                                       "backend": "ast (set membership, no solver)", "text": name, "line": 0,
+                                       "detail": detail, "model": {"detail": detail}, "cex": {"static": detail}})
     return out
 
 
@@ -163,7 +179,7 @@ def run_prover(root, prop, tier, jobs):
         for r in more:
             r["dependency"] = True
         results.extend(more)
-    if any(p == prop for (p, _n, _pc, _g) in REG.lemmas):
+    if any(p == prop for (p, _n, _pc, _g) in REG.lemmas) or any(p == prop for (p, _n, _f) in REG.static_checks):
         results.append(_lemma_worker((root, prop, None, None, tier)))
     return REG, results
 
